@@ -58,3 +58,10 @@ Theorem C06_close_leaves_fewer_than_limit :
     (length its < done_at ds (t_drop limit ds t_close) + limit)%nat.
 Proof. exact close_leaves_fewer_than_limit. Qed.
 Print Assumptions C06_close_leaves_fewer_than_limit.
+
+(* ... and at the Multi level: every listener is left with fewer than `limit` unprocessed events when Multi::close returns *)
+Theorem C06_multi_close_leaves_fewer_than_limit :
+  forall k limit durs t_close, (1 <= limit)%nat ->
+    forall ds, In ds (mruns k limit durs) -> (length durs < done_at ds (m_return limit (mruns k limit durs) t_close) + limit)%nat.
+Proof. exact multi_close_leaves_fewer_than_limit. Qed.
+Print Assumptions C06_multi_close_leaves_fewer_than_limit.
